@@ -6,6 +6,13 @@
   `TriggerBuild.convertResponse` / `registerAll` (the loops of `grpc.convert_response` and
   `TracepointConfigService.add_custom`; the extractor checks the former against its exact source template).
 
+  DOMAIN: argument VALUES are text (`Args = List (String × String)`): what the service sends.  `register_tracepoint`
+  passes on whatever the program gave (None, lists, numbers): `build_trigger` then compares / stores those objects as they
+  are — {'fire_count': None} installs an action whose `fire_count` raises at every hit (Extracted.TpArgs, `c11_arg_int_table`),
+  {'span': ['method']} installs a Span action, {'stage': None} is dropped; and `add_custom` keeps the caller's `watches`
+  LIST (the service path copies it).  None of the theorems below speaks about such registrations; they are driven in the
+  labelled stream `regodd` of the check (known-finding candidates).
+
   Quantifiers: `args` is ANY association list of arbitrary strings (any keys, any values, any length), watches and
   metric definitions are arbitrary lists, responses are arbitrary lists of tracepoints.  No bound anywhere; the
   proofs split on membership / equality with the distinguished texts, they do not enumerate.
@@ -190,16 +197,36 @@ theorem c11_registered_usable (tps : List TP) : ∀ e ∈ registerAll tps, e.isS
   obtain ⟨t, _, rfl⟩ := he
   rfl
 
-/-- **registered in code or received from the service: the same interpretation** — one tracepoint with the same
-    arguments, watches and (converted) metric definitions gives the same trigger — same place, same actions, same
-    limits — whether it is registered through `add_custom` or arrives alone in a poll response; and it is left out on
-    both paths in exactly the same cases.  (Both paths call the one translated `build_trigger`; what differs is the
-    id — a fresh uuid for a registration — and that registrations hand over ready-made `MetricDefinition`s.) -/
-theorem c11_registered_as_service (tp : TP) : registerAll [tp] = (convertResponse [tp]).map some := by
-  cases h : tp.build <;>
-    simp [registerAll, addCustomSkipsNone, convertResponse, convertResponseFrom, stepResponse, mergeInto, h]
+/-- **registered in code or received from the service** — DOMAIN: argument values are text (`Args`; the service can
+    send nothing else, `register_tracepoint` does not check).  The register path (`registerCode`: `add_custom` calls the
+    translated `build_trigger` on READY-MADE metric definitions) and the service path (`convertResponse`: definitions
+    converted from protobuf first) give the same trigger for one tracepoint UNDER THE NAMED HYPOTHESIS `knownMetricTypes`:
+    the service-side definitions convert, and the registration carries exactly the converted ones.  That both paths call
+    `build_trigger` is read from the source (templates of `convert_response` / `add_custom`); what is proved is that
+    the service path adds nothing but the conversion and the `None` skip. -/
+theorem c11_registered_as_service (tp : TP) (ms : List MetricDefinition)
+    (knownMetricTypes : convert_metric_definition tp.metrics = some ms) :
+    registerCode [⟨tp.id, tp.path, tp.line, tp.args, tp.watches, ms⟩] = (convertResponse [tp]).map some := by
+  have hb : tp.build = build_trigger tp.id tp.path tp.line tp.args tp.watches ms := by
+    unfold TP.build TP.outcome
+    rw [knownMetricTypes]
+    cases hbt : build_trigger tp.id tp.path tp.line tp.args tp.watches ms <;> simp [hbt]
+  cases h : build_trigger tp.id tp.path tp.line tp.args tp.watches ms <;>
+    simp [registerCode, RegTP.build, addCustomSkipsNone, convertResponse, convertResponseFrom, stepResponse, mergeInto,
+      hb, h]
 
-/-- …and for whole lists: what the registrations install, tracepoint by tracepoint, is what a response with the
+/-- witness: the hypothesis is needed — the two paths do NOT leave out the same tracepoints.  A metric of a type
+    the installed protobuf does not know (number 7) costs the service tracepoint its installation; a registration whose
+    definition carries a type text no provider knows ('BOGUS') is installed, Snapshot and Metric action (the metric
+    call then fails at every hit inside the per-metric guard). -/
+theorem c11_registered_unknown_type_witness :
+    convertResponse [⟨"t", "a.py", 1, [], [], [⟨"m", [], 7, "", "", "", ""⟩]⟩] = [] ∧
+    (registerCode [⟨"t", "a.py", 1, [], [], [⟨"m", "BOGUS", [], "", "", "", ""⟩]⟩]).map
+      (fun o => o.map (fun t => t.actions.map (·.action_type))) = [some [.Snapshot, .Metric]] := by decide
+
+/-- model lemma: (list glue over `registerAll`, the register path for tracepoints DESCRIBED like service ones — metric
+    types as enum numbers converted first; nothing in it is specific to `add_custom`)
+    …and for whole lists: what the registrations install, tracepoint by tracepoint, is what a response with the
     same tracepoints installs, before same-location grouping: every action of every registered trigger is in the
     response's trigger of that location id, and every action installed from the response is some registration's. -/
 theorem c11_registered_vs_response (tps : List TP) :
